@@ -81,6 +81,9 @@ M = [
         if ( !(d > 0.0 && d <= 1.0) ) throw std::invalid_argument("Discount parameter must be in (0,1]");'''),
  ('R4 SparseMaximumLikelihoodModel guard accepts a discount of 0', 'include/AIToolbox/MDP/SparseMaximumLikelihoodModel.hpp',
   'if ( !(d > 0.0 && d <= 1.0) ) throw', 'if ( !(d >= 0.0 && d <= 1.0) ) throw'),
+ ('R5 Model(const M&) reads the reward of the self-transition for every successor', 'include/AIToolbox/MDP/Model.hpp',
+  'rewards_    (s, a)     += model.getExpectedReward       (s, a, s1) * transitions_[a](s, s1);',
+  'rewards_    (s, a)     += model.getExpectedReward       (s, a, s) * transitions_[a](s, s1);'),
  ('M12 checkTag no longer reports duplicates', 'src/Factored/Utils/Core.cpp',
   'if (tagV == previousV)    return std::make_pair(TagErrors::Duplicates, t);', ''),
 ]
